@@ -99,6 +99,8 @@ impl Property for C10 {
             "poll_ms": *rng.pick(&[0u64, 0, 0, 0, 0, 0, 1, 1000, 3000, 60_000]),
             // the descriptor handed over is not at byte 0 (e.g. inherited): --head must still start at the first byte
             "pre_seek": if rng.chance(1, 10) { json!(rng.below(initial.len() + 1)) } else { J::Null },
+            // whole-executor runs: writer chunks that land after the constructor returned, before execute() is entered
+            "land_after_new": if exec && rng.chance(1, 3) { rng.range(1, 3) } else { 0 },
         })
     }
 
@@ -118,6 +120,7 @@ impl Property for C10 {
         num_field(case, "idle", 1, &mut out);
         num_field(case, "poll_ms", 0, &mut out);
         set_field(case, "pre_seek", J::Null, &mut out);
+        num_field(case, "land_after_new", 0, &mut out);
         out
     }
 
@@ -145,6 +148,8 @@ impl Property for C10 {
         spec.read_mode = read_mode_from_json(case, "read_mode");
         spec.end_after_idle = Some(jusize(case, "idle", 1));
         spec.poll_cost_ns = jusize(case, "poll_ms", 0) as u64 * 1_000_000;
+        spec.land_after_new = jusize(case, "land_after_new", 0);
+        out.probe("append_between_construction_and_execute", (exec && spec.land_after_new > 0 && !chunks.is_empty()) as u64);
         if let Some(pos) = case.get("pre_seek").and_then(|x| x.as_u64()) {
             spec.pre_seek = Some(pos.min(initial.len() as u64));
             // the harness' own positioning consumes one script step: keep it quiet
